@@ -26,6 +26,7 @@ type simErrFmt struct{ ID int }
 type simErrSafeFmt struct{ ID int }
 type simErrStr struct{ ID int }
 type simSafeVal struct{ ID int }
+type simHookErr struct{ ID int }
 type simRegSafe struct{ ID int }
 type simPtrStringer struct{ ID int }
 type simPtrError struct{ ID int }
@@ -53,6 +54,7 @@ func (s simErrSafeFmt) Error() string    { return string(curEnv().def(s.ID).R) }
 func (s simErrStr) Error() string        { return curEnv().strMethod(s.ID, "Error") }
 func (s simErrStr) String() string       { return "str:" + string(curEnv().def(s.ID).R) }
 func (s simSafeVal) SafeValue()          {}
+func (s simHookErr) Error() string       { return string(curEnv().def(s.ID).R) }
 func (s simSafeVal) String() string      { return curEnv().strMethod(s.ID, "String") }
 func (s simRegSafe) String() string      { return curEnv().strMethod(s.ID, "String") }
 
@@ -83,7 +85,7 @@ func errorHook(err error, p redact.SafePrinter, verb rune) {
 	e := curEnv()
 	e.stats.HookCalls++
 	switch v := err.(type) {
-	case simErrSafeFmt:
+	case simHookErr:
 		e.safeFmtMethod(v.ID, "Hook", p, verb)
 		return
 	}
@@ -95,7 +97,7 @@ func errorHook(err error, p redact.SafePrinter, verb rune) {
 var scriptedKinds = map[string]bool{
 	"stringer": true, "error": true, "wraperr": true, "formatter": true, "gostringer": true,
 	"safefmt": true, "safemsg": true, "errfmt": true, "errsafefmt": true, "errstr": true,
-	"safeval": true, "regsafe": true, "nilstringer": true, "nilerror": true,
+	"safeval": true, "regsafe": true, "hookerr": true, "nilstringer": true, "nilerror": true,
 }
 
 // build turns a descriptor into a live operand.
@@ -221,6 +223,8 @@ func (e *env) build(v *Val) interface{} {
 		return simErrStr{v.ID}
 	case "safeval":
 		return simSafeVal{v.ID}
+	case "hookerr":
+		return simHookErr{v.ID}
 	case "regsafe":
 		return simRegSafe{v.ID}
 	case "nilstringer":
@@ -312,8 +316,7 @@ func (e *env) strMethod(id int, method string) string {
 		case "y":
 			e.yield(yCallback)
 		case "re":
-			out := e.reenter(st.O)
-			ret += out.stripped()
+			e.reenter(st.O)
 		case "pa":
 			e.doPanic(st)
 		default:
